@@ -21,12 +21,13 @@ def _decorate(g, L, known, rng, lines, grid):
 
 
 def job_derive(job):
-    seed, prop, directed, calls, lab, known, grid, tier = job
+    seed, prop, directed, calls, lab, known, grid, tier = job[:8]
+    removal = job[8] if len(job) > 8 else True      # C16 only: accumulative sources (known finding KF8)
     rng = random.Random(seed)
     extra, iso = _decorate(None, None, known, rng, None, grid)
     known2 = sorted(set(known) | {iso})
     big = len(known2) > 8 or grid[1] - grid[0] > 200     # large universe / long timelines
-    lines, g, L, known2, grid = drivers.make_trace(directed, True, list(calls) + extra, labeling=lab, rng=rng,
+    lines, g, L, known2, grid = drivers.make_trace(directed, removal, list(calls) + extra, labeling=lab, rng=rng,
                                                    known=known2, grid=grid, ret_obj=True, observe_every=not big)
     # nested mutable attribute values and a graph attribute (not modelled; part of the raw digest)
     for n in list(g.nodes())[:2]:
@@ -173,7 +174,7 @@ def run(prop, tier, seed):
     cfgs = ["MC_core_loops.cfg", "MC_core_tiny.cfg"] if tier == "quick" else ["MC_core_loops.cfg", "MC_core_small.cfg", "MC_core_3n.cfg"]
     for cfg in cfgs:
         states, alphabet = mc_states(chk, cfg, ["InvRefines", "InvC03"])
-        states = [s for s in states if s["rem"] and (prop == "C06" or True)]
+        states = [s for s in states if s["rem"] or prop == "C16"]      # C16 also converts accumulative sources
         nmax = max([n for c in alphabet for n in drivers.call_nodes(c)] or [2])
         known = list(range(1, nmax + 1))
         grid = drivers.grid_of(alphabet)
@@ -182,7 +183,7 @@ def run(prop, tier, seed):
         for i, st in enumerate(states):
             nst += 1
             labs = IOLABS if prop in ("C09", "C10", "C11") else LABS
-            jobs.append((rng.randrange(1 << 30), prop, st["dir"], st["hist"], labs[(i + seed) % len(labs)], known, grid, tier))
+            jobs.append((rng.randrange(1 << 30), prop, st["dir"], st["hist"], labs[(i + seed) % len(labs)], known, grid, tier, st["rem"]))
     nrand = 60 if tier == "quick" else 1500
     for i in range(nrand):
         nn = rng.choice([2, 3, 4, 5])
@@ -190,7 +191,7 @@ def run(prop, tier, seed):
         calls = drivers.rand_history(rng, nn, tmax, rng.randint(2, 14))
         jobs.append((rng.randrange(1 << 30), prop, rng.random() < 0.5, calls,
                      rng.choice(IOLABS if prop in ("C09", "C10", "C11") else LABS),
-                     drivers.known_of(calls), drivers.grid_of(calls), tier))
+                     drivers.known_of(calls), drivers.grid_of(calls), tier, not (prop == "C16" and rng.random() < 0.25)))
     # a few large universes (12-18 nodes, instants up to 80): presence / node / round-trip clauses only
     for _ in range(4 if tier == "quick" else 60):
         calls = [c for c in drivers.rand_history(rng, rng.choice([12, 18]), rng.choice([40, 80]), rng.randint(60, 120), bulk=0.1)
